@@ -13,6 +13,13 @@ import ast
 from .astutil import strip_docstring
 
 
+def call_name_(e):
+    try:
+        return ast.unparse(e.func)
+    except Exception:
+        return ""
+
+
 class NotModelled(Exception):
     pass
 
@@ -32,6 +39,16 @@ class Ref:
         return "self.%s%s" % (self.attr, list(self.prefix) if self.prefix else "")
 
 
+class View:
+    """a name bound to a sub-array (`tmp = v[i]` with v two-dimensional): numpy gives a VIEW — reading the name later reads the cells as they are then"""
+
+    def __init__(self, attr, idx):
+        self.attr, self.idx = attr, tuple(idx)
+
+    def __repr__(self):
+        return "view of %s%s" % (self.attr, list(self.idx))
+
+
 class Cells:
     def __init__(self):
         self.heap = {}
@@ -45,8 +62,9 @@ class Cells:
 
 
 class Interp:
-    def __init__(self, cls_info, max_steps=4000):
+    def __init__(self, cls_info, max_steps=4000, ndims=None):
         self.ci = cls_info
+        self.ndims = ndims or {}        # array name -> number of dimensions (a shorter index gives a view, not a value)
         self.cells = Cells()
         self.steps = 0
         self.max_steps = max_steps
@@ -67,6 +85,22 @@ class Interp:
             return r.v
         return None
 
+    def call_function(self, fn_node, args):
+        """run a module-level function: integer arguments are concrete, an argument given as Ref is one of the arrays"""
+        params = [a.arg for a in fn_node.args.args]
+        if len(args) != len(params):
+            raise NotModelled("arity")
+        env = dict(zip(params, args))
+        try:
+            self.block(strip_docstring(fn_node.body), env)
+        except _Return as r:
+            return r.v
+        return None
+
+    def value(self, v):
+        """a view read as a value: what its cells hold NOW"""
+        return self.cells.load(v.attr, v.idx) if isinstance(v, View) else v
+
     # ------------------------------------------------------------------ statements
     def block(self, stmts, env):
         for st in stmts:
@@ -77,9 +111,9 @@ class Interp:
 
     def stmt(self, st, env):
         if isinstance(st, ast.Assign):
-            v = self.ev(st.value, env)
+            v = self.ev(st.value, env, keep_view=True)
             for t in st.targets:
-                self.assign(t, v, env)
+                self.assign(t, v if isinstance(t, ast.Name) else self.value(v), env)
         elif isinstance(st, ast.AugAssign):
             cur = self.ev(st.target, env)
             v = self.ev(st.value, env)
@@ -139,7 +173,9 @@ class Interp:
         elif isinstance(t, ast.Attribute) and isinstance(t.value, ast.Name) and t.value.id == "self":
             self.cells.scalars[t.attr] = v
         elif isinstance(t, ast.Subscript):
-            base = self.ev(t.value, env)
+            base = self.ev(t.value, env, keep_view=True)
+            if isinstance(base, View):
+                base = Ref(base.attr, base.idx)
             if not isinstance(base, Ref):
                 raise NotModelled("store into %s" % ast.unparse(t))
             ix = self.index(t.slice, env)
@@ -163,12 +199,12 @@ class Interp:
             raise NotModelled("non-integer index")
         return ix
 
-    def ev(self, e, env):
+    def ev(self, e, env, keep_view=False):
         if isinstance(e, ast.Constant):
             return e.value
         if isinstance(e, ast.Name):
             if e.id in env:
-                return env[e.id]
+                return env[e.id] if keep_view else self.value(env[e.id])
             raise NotModelled("name %s" % e.id)
         if isinstance(e, ast.Attribute) and isinstance(e.value, ast.Name) and e.value.id == "self":
             if e.attr in self.cells.scalars:
@@ -177,10 +213,15 @@ class Interp:
         if isinstance(e, (ast.Tuple, ast.List)):
             return tuple(self.ev(x, env) for x in e.elts)
         if isinstance(e, ast.Subscript):
-            base = self.ev(e.value, env)
+            base = self.ev(e.value, env, keep_view=True)
+            if isinstance(base, View):
+                base = Ref(base.attr, base.idx)
             if isinstance(base, Ref):
                 ix = self.index(e.slice, env)
-                return self.cells.load(base.attr, base.prefix + ix)
+                full = base.prefix + ix
+                if keep_view and len(full) < self.ndims.get(base.attr, 0):
+                    return View(base.attr, full)
+                return self.cells.load(base.attr, full)
             if isinstance(base, (tuple, list)):
                 i = self.ev(e.slice, env)
                 if isinstance(i, int):
@@ -227,6 +268,10 @@ class Interp:
         if isinstance(e, ast.IfExp):
             return self.ev(e.body if self.truth(self.ev(e.test, env)) else e.orelse, env)
         if isinstance(e, ast.Call):
+            if isinstance(e.func, ast.Attribute) and e.func.attr == "copy" and not e.args and not e.keywords:
+                return self.value(self.ev(e.func.value, env, keep_view=True))          # a snapshot of the cells
+            if (call_name_(e) in ("np.copy", "np.array", "np.asarray", "np.ascontiguousarray")) and len(e.args) == 1:
+                return self.value(self.ev(e.args[0], env, keep_view=True))
             if isinstance(e.func, ast.Attribute) and isinstance(e.func.value, ast.Name) and e.func.value.id == "self" and not e.keywords:
                 return self.call_method(e.func.attr, [self.ev(a, env) for a in e.args])
             if isinstance(e.func, ast.Name) and not e.keywords:
